@@ -98,6 +98,18 @@ def automatic_limit_checks(ctx):
     ok = bool(lambdas) and all(isinstance(l.body, ast.Call) and call_attr(l.body) == 'checkLimits' and len(l.body.args) == 2 for l in lambdas)
     ctx.check(ok, f'{hook.qualname}:generated check calls checkLimits', loops[0], 'lambda self, value: self.checkLimits(value, pname)',
               'the generated check function does not call checkLimits(value, pname)', hook)
+    for l in lambdas:
+        guards = [a for a in ancestors(l) if isinstance(a, ast.If) and any(a is x for x in ast.walk(loops[0]))]
+        own = [g for g in guards if '__dict__' in src(g.test) and 'not in' in src(g.test)]
+        inherited = [g for g in guards if 'hasattr(' in src(g.test) or 'getattr(' in src(g.test)]
+        if inherited:
+            ctx.bad(f'{hook.qualname}:generated check is not suppressed by an inherited hook', inherited[0],
+                    f'`{src(inherited[0].test)}` also sees check hooks inherited from a parent: when a parent defines check_<p> and a subclass adds the '
+                    'limit parameters, no limit check is attached and the limits are not enforced', hook)
+        elif own:
+            ctx.ok(f'{hook.qualname}:generated check is not suppressed by an inherited hook', own[0], 'tests the own class dictionary only', hook)
+        else:
+            ctx.undecided(f'{hook.qualname}:generated check is not suppressed by an inherited hook', l, 'guard form not recognised', hook)
     cf = [n for n in body_walk(hook.node) if isinstance(n, ast.Assign) and src(n.targets[0]) == 'cfuncs']
     ok = bool(cf) and '__mro__' in src(cf[0].value) and '__dict__' in src(cf[0].value)
     ctx.check(ok, f'{hook.qualname}:check hooks of the whole MRO', hook.node, 'cfuncs collected from b.__dict__ for b in cls.__mro__',
